@@ -375,7 +375,12 @@ def build_phase2(rng, tier, r_results):
 # ------------------------------------------------------------------ the check
 def run(rep, tier, seed, replay=None):
     rep.level = "proof"
-    gentables.regenerate()        # the finite theorem C08_encode_float_eq_raw_partial quantifies over the shipped tables (GenTables.v)
+    # the finite theorem C08_encode_float_eq_raw_partial quantifies over the shipped tables (GenTables.v): regenerate when the
+    # tables differ (not when only the header comment naming the tree differs: that would rebuild ScalPartial.v for nothing)
+    gpath = os.path.join(vlib.COQ, "theories", "GenTables.v")
+    body = lambda t: t.split("\n", 1)[1] if "\n" in t else t
+    if not os.path.exists(gpath) or body(open(gpath).read()) != body(gentables.render(vlib.REPO)):
+        gentables.regenerate()
     proved = vlib.proof_step(rep, "Properties_C08")
     exe = vlib.build_harness("c08")
     drv = vlib.extract_and_build_driver("c08")
